@@ -1,4 +1,139 @@
+/-
+  C04 — collections compute element by element what single objects compute.
+  T04.2: the einsum that `TensorDiagram.calculate` issues, evaluated at a collection position, equals the
+  einsum of the slices at that position — for every diagram, any number of operands, ranks and summed labels.
+-/
 import Geo.JoinMeet
+import Mathlib.Tactic.Ring
 namespace Geo
-theorem C04_placeholder : (1 : Nat) = 1 := rfl
+
+variable {α : Type} [Add α] [Mul α] [Zero α] [One α]
+
+private theorem lookup_cons (k v : Nat) (env : List (Nat × Nat)) (l : Nat) :
+    lookup ((k, v) :: env) l = if k = l then v else lookup env l := rfl
+
+private theorem lookup_append_left (A B : List (Nat × Nat)) (l : Nat) (h : l ∈ A.map Prod.fst) :
+    lookup (A ++ B) l = lookup A l := by
+  induction A with
+  | nil => simp at h
+  | cons a A ih =>
+    obtain ⟨k, v⟩ := a
+    simp only [List.cons_append, lookup_cons]
+    by_cases hk : k = l
+    · simp [hk]
+    · simp only [hk, if_false]
+      apply ih
+      simp only [List.map_cons, List.mem_cons] at h
+      rcases h with h | h
+      · exact absurd h.symm hk
+      · exact h
+
+private theorem lookup_append_right (A B : List (Nat × Nat)) (l : Nat) (h : l ∉ A.map Prod.fst) :
+    lookup (A ++ B) l = lookup B l := by
+  induction A with
+  | nil => simp
+  | cons a A ih =>
+    obtain ⟨k, v⟩ := a
+    simp only [List.map_cons, List.mem_cons, not_or] at h
+    simp only [List.cons_append, lookup_cons]
+    have : ¬ k = l := fun e => h.1 e.symm
+    simp only [this, if_false]
+    exact ih h.2
+
+private theorem sumRange_congr (n : Nat) (f g : Nat → α) (h : ∀ v, f v = g v) : sumRange n f = sumRange n g := by
+  have : f = g := funext h
+  rw [this]
+
+/-- operands of a collection diagram: (labels of the leading collection axes, labels of the tensor axes, array) -/
+abbrev COperand (α : Type) := List Nat × List Nat × (List Nat → α)
+
+/-- the slice of an operand at collection position `pos` (a single object is its own slice) -/
+def sliceAt (free pos : List Nat) (o : COperand α) : List Nat → α :=
+  fun i => o.2.2 (o.1.map (lookup (free.zip pos)) ++ i)
+
+private theorem prodOps_slice (free pos : List Nat) (ops : List (COperand α)) (env env' : List (Nat × Nat))
+    (hfree : ∀ l, l ∈ free → lookup env l = lookup (free.zip pos) l)
+    (hrest : ∀ l, l ∉ free → lookup env l = lookup env' l)
+    (h3 : ∀ o ∈ ops, ∀ l ∈ o.1, l ∈ free) (h4 : ∀ o ∈ ops, ∀ l ∈ o.2.1, l ∉ free) :
+    prodOps (ops.map fun o => o.1 ++ o.2.1) (ops.map fun o => o.2.2) env
+      = prodOps (ops.map fun o => o.2.1) (ops.map (sliceAt free pos)) env' := by
+  induction ops with
+  | nil => simp [prodOps]
+  | cons o ops ih =>
+    simp only [List.map_cons, prodOps]
+    rw [ih (fun o' ho' => h3 o' (List.mem_cons_of_mem _ ho')) (fun o' ho' => h4 o' (List.mem_cons_of_mem _ ho'))]
+    congr 1
+    simp only [sliceAt, List.map_append]
+    have e1 : List.map (lookup env) o.1 = List.map (lookup (free.zip pos)) o.1 :=
+      List.map_congr_left fun l hl => hfree l (h3 o List.mem_cons_self l hl)
+    have e2 : List.map (lookup env) o.2.1 = List.map (lookup env') o.2.1 :=
+      List.map_congr_left fun l hl => hrest l (h4 o List.mem_cons_self l hl)
+    rw [e1, e2]
+
+private theorem sumOver_slice (free pos : List Nat) (ops : List (COperand α)) (summed : List (Nat × Nat))
+    (h2 : ∀ s ∈ summed, s.1 ∉ free)
+    (h3 : ∀ o ∈ ops, ∀ l ∈ o.1, l ∈ free) (h4 : ∀ o ∈ ops, ∀ l ∈ o.2.1, l ∉ free) :
+    ∀ env env' : List (Nat × Nat),
+    (∀ l, l ∈ free → lookup env l = lookup (free.zip pos) l) →
+    (∀ l, l ∉ free → lookup env l = lookup env' l) →
+    sumOver summed env (fun e => prodOps (ops.map fun o => o.1 ++ o.2.1) (ops.map fun o => o.2.2) e)
+      = sumOver summed env' (fun e => prodOps (ops.map fun o => o.2.1) (ops.map (sliceAt free pos)) e) := by
+  induction summed with
+  | nil =>
+    intro env env' hf hr
+    simp only [sumOver]
+    exact prodOps_slice free pos ops env env' hf hr h3 h4
+  | cons s summed ih =>
+    obtain ⟨l, dim⟩ := s
+    intro env env' hf hr
+    simp only [sumOver]
+    apply sumRange_congr
+    intro v
+    apply ih (fun s' hs' => h2 s' (List.mem_cons_of_mem _ hs'))
+    · intro f hfm
+      have hne : ¬ l = f := fun e => (h2 (l, dim) List.mem_cons_self) (e ▸ hfm)
+      rw [lookup_cons]; simp only [hne, if_false]; exact hf f hfm
+    · intro f hfm
+      rw [lookup_cons, lookup_cons]
+      by_cases hlf : l = f
+      · simp [hlf]
+      · simp only [hlf, if_false]; exact hr f hfm
+
+/-- **T04.2** (every diagram): the value of the einsum at output index `pos ++ idx` — collection position
+    `pos`, tensor index `idx` — equals the einsum of the operands' slices at `pos`, where an operand with fewer
+    (or no) collection axes is broadcast.  Hypotheses = what `calculate` guarantees: collection labels come
+    first in the output and are never summed; the collection axes of every operand carry collection labels;
+    tensor axes never do. -/
+theorem T04_2_elementwise (free rest pos idx : List Nat) (ops : List (COperand α)) (summed : List (Nat × Nat))
+    (h1 : free.length = pos.length)
+    (h2 : ∀ s ∈ summed, s.1 ∉ free)
+    (h3 : ∀ o ∈ ops, ∀ l ∈ o.1, l ∈ free) (h4 : ∀ o ∈ ops, ∀ l ∈ o.2.1, l ∉ free) :
+    evalEinsum (ops.map fun o => o.1 ++ o.2.1) (free ++ rest) summed (ops.map fun o => o.2.2) (pos ++ idx)
+      = evalEinsum (ops.map fun o => o.2.1) rest summed (ops.map (sliceAt free pos)) idx := by
+  unfold evalEinsum
+  apply sumOver_slice free pos ops summed h2 h3 h4
+  · intro l hl
+    rw [List.zip_append h1]
+    apply lookup_append_left
+    rw [List.map_fst_zip (by omega)]
+    exact hl
+  · intro l hl
+    rw [List.zip_append h1]
+    apply lookup_append_right
+    rw [List.map_fst_zip (by omega)]
+    exact hl
+
+/-- non-vacuity: the traced collection diagram `join(PointCollection, Point)` (labels `[0,1] [1,3,4] [3] → [0,4]`)
+    has exactly this shape: free = [0], the collection operand carries label 0 on its leading axis -/
+example : (([0] : List Nat).length = ([1] : List Nat).length) ∧ (∀ s ∈ [((1 : Nat), (3 : Nat)), (3, 3)], s.1 ∉ ([0] : List Nat)) := by
+  decide
+
+/-! ## T04.3  the model's collection operations are position-wise by construction -/
+
+/-- the dependence mask of a collection result is computed position by position -/
+theorem T04_3_mask_positionwise [DecidableEq α] (t : Tens α) (nfree : Nat) (k : Nat)
+    (hk : k < (Tens.allIndices (t.shape.take nfree)).length) :
+    (isZeroMask t nfree).2.getD k false = (t.slice ((Tens.allIndices (t.shape.take nfree)).getD k [])).isZero := by
+  simp [isZeroMask, List.getD_eq_getElem?_getD, hk]
+
 end Geo
